@@ -22,6 +22,12 @@
 //!       publish, point 20, before its predecessors have counted themselves).  impl {"declared":n,"parts":[rows…],"order":[…requested],
 //!       "log":[[id,partition]…],"hook":bool,"timeouts":k,"full":rows}.  Without the hook in /repo no yield point fires:
 //!       hook=false, nothing is forced, only the outputs are compared.
+//!   {"kind":"sql", …, "recuts":[1,2,3,5,6,7,10,12], "kids":[5]}   (stratum `aggcut`, tag s:aggcut)
+//!       hand-written aggregate statements (global MIN/MAX/SUM/AVG/COUNT, a single scalar aggregate, GROUP BY + COUNT(DISTINCT))
+//!       over ONE small table t0(id, a BIGINT, d DATE, f DOUBLE, s VARCHAR, g BIGINT) whose aggregated columns carry NULL runs at
+//!       the start and/or the end, registered as one batch and re-cut into each of the listed batch counts, under the 1-thread and
+//!       the 4-thread child: partial aggregation states of chunks that hold only NULLs must merge like any other
+//!       (C07_merge_order).  Runs are named r<k>@t<threads>w<workers>.
 //!   {"kind":"sql", …sqlgen case (mode meta)…, "recut":k}
 //!       one generated statement under layouts {mem1, memb, rk = every table re-cut into k batches} × every child's
 //!       (threads, workers), each through `ctx.sql`, plus `pp` = the union of the individually executed declared
@@ -45,7 +51,7 @@ use std::process::{Child, ChildStdin, Command, Stdio};
 use std::sync::Arc;
 
 /// (RAYON_NUM_THREADS, tokio workers) of the children
-const CHILDREN: [(usize, usize); 5] = [(1, 1), (2, 4), (3, 2), (8, 4), (16, 8)];
+const CHILDREN: [(usize, usize); 6] = [(1, 1), (2, 4), (3, 2), (8, 4), (16, 8), (4, 4)];
 const MAX_ROWS_OUT: usize = 1500;
 
 // ------------------------------------------------------------------------------------------------ child side
@@ -187,11 +193,16 @@ fn child_sql(c: &Value) -> Value {
     let k = c["recut"].as_u64().unwrap_or(7) as usize;
     let ordered = c["plan"].get("sort").is_some() || c["plan"].get("limit").is_some();
     let (t, w) = child_threads();
-    let layouts: Vec<(&str, Box<dyn Fn(&TableSpec) -> Vec<RecordBatch>>)> = vec![
-        ("mem1", Box::new(|t: &TableSpec| t.single_batch())),
-        ("memb", Box::new(|t: &TableSpec| t.batches())),
-        ("rk", Box::new(move |t: &TableSpec| recut(t, k))),
-    ];
+    let recuts: Vec<usize> = c["recuts"].as_array().map(|a| a.iter().map(|x| x.as_u64().unwrap_or(1) as usize).collect()).unwrap_or_default();
+    let names: Vec<String> = recuts.iter().map(|k| format!("r{}", k)).collect();
+    let mut layouts: Vec<(&str, Box<dyn Fn(&TableSpec) -> Vec<RecordBatch>>)> = vec![("mem1", Box::new(|t: &TableSpec| t.single_batch()))];
+    if recuts.is_empty() {
+        layouts.push(("memb", Box::new(|t: &TableSpec| t.batches())));
+        layouts.push(("rk", Box::new(move |t: &TableSpec| recut(t, k))));
+    } else {
+        // stratum aggcut: the same small table re-cut into each listed number of batches
+        for (i, kk) in recuts.iter().enumerate() { let kk = *kk; layouts.push((names[i].as_str(), Box::new(move |t: &TableSpec| recut(t, kk)))); }
+    }
     let mut runs = serde_json::Map::new();
     let mut decl = serde_json::Map::new();
     for (name, lay) in &layouts {
@@ -201,7 +212,7 @@ fn child_sql(c: &Value) -> Value {
             match mk_ctx().sql(&sql).await { Ok(r) => json!({"ok": rows_json(&canon(rows_of(&r.batches), ordered))}), Err(e) => err_json(&e) }
         }));
         runs.insert(key, out);
-        if *name == "mem1" { continue; }
+        if *name == "mem1" || !recuts.is_empty() { continue; }
         // every declared partition executed individually (sequentially, fresh plan), union
         let key = format!("{}pp@t{}w{}", name, t, w);
         let mut declared = 0usize;
@@ -416,6 +427,57 @@ fn has_null_and_minus_one(c: &Value) -> bool {
     false
 }
 
+/// stratum aggcut: aggregate statements over a small table with NULL runs, re-cut into many batch counts (see the header)
+fn gen_aggcut(r: &mut Rng) -> Value {
+    use crate::fams::fam_sql::sqlgen::catalog::ColSpec;
+    use crate::fams::fam_sql::sqlgen::ColTy;
+    let n = *r.pick(&[24usize, 60, 60, 84, 120]);
+    let run = |r: &mut Rng| -> usize { *r.pick(&[0usize, 0, n / 12, n / 6, n / 4, n / 3, n / 2]) };
+    // per aggregated column: NULL run at the start, NULL run at the end, plus sparse NULLs in between
+    let mut runs: Vec<(usize, usize)> = (0..4).map(|_| (run(r), run(r))).collect();
+    if r.chance(1, 2) { let e = runs[0].1.max(n / 6); for x in runs.iter_mut() { x.1 = e; } }   // aligned end runs across the columns
+    let words = ["", "a", "ab", "b", "ba", "zz"];
+    let mut rows: Vec<Vec<Val>> = vec![];
+    for i in 0..n {
+        let null_at = |c: usize, r: &mut Rng| i < runs[c].0 || i >= n - runs[c].1 || r.chance(1, 12);
+        let a = if null_at(0, r) { Val::Null } else { Val::I(r.range(-3, 120)) };
+        let d = if null_at(1, r) { Val::Null } else { Val::D(r.range(-400, 20000) as i32) };
+        let f = if null_at(2, r) { Val::Null } else { Val::f(r.range(-40, 40) as f64 / 4.0) };
+        let s = if null_at(3, r) { Val::Null } else { Val::S(r.pick(&words).to_string()) };
+        rows.push(vec![Val::I(i as i64), a, d, f, s, Val::I((i % 3) as i64)]);
+    }
+    let col = |name: &str, cty: ColTy, unique: bool| ColSpec { name: name.into(), cty, null_pct: if unique { 0 } else { 10 }, boundary: false, special: false, unique };
+    let t = TableSpec { name: "t0".into(), cols: vec![col("id", ColTy::I64, true), col("a", ColTy::I64, false), col("d", ColTy::Date, false),
+        col("f", ColTy::F64, false), col("s", ColTy::Str, false), col("g", ColTy::I64, false)], rows, cuts: vec![n] };
+    let cat = Catalog { tables: vec![t] };
+    // columns: 1 a, 2 d, 3 f, 4 s, 5 g
+    let cname = ["id", "a", "d", "f", "s", "g"];
+    let ag = |f: &str, c: usize, distinct: bool| -> (String, Value) {
+        let sql = if distinct { format!("COUNT(DISTINCT {})", cname[c]) } else { format!("{}({})", f.to_uppercase(), cname[c]) };
+        (sql, json!({"fn": f, "arg": {"col": c}, "distinct": distinct}))
+    };
+    let c = 1 + r.below(4) as usize;                       // the aggregated column
+    let num = *r.pick(&[1usize, 3]);                       // a or f: SUM / AVG are defined
+    let mut aggs: Vec<(String, Value)> = vec![];
+    let shape = r.below(4);
+    match shape {
+        0 => { aggs.push(ag(*r.pick(&["min", "max"]), c, false)); }                                  // single scalar aggregate
+        1 => { for f in ["min", "max", "count"] { aggs.push(ag(f, c, false)); } aggs.push(("COUNT(*)".into(), json!({"fn": "count_star", "arg": {"lit": null}, "distinct": false}))); }
+        2 => { aggs.push(ag("sum", num, false)); aggs.push(ag("avg", num, false)); aggs.push(ag("min", c, false)); aggs.push(ag("max", c, false)); }
+        _ => { aggs.push(ag("count", c, true)); aggs.push(ag("min", c, false)); aggs.push(ag("max", *r.pick(&[1usize, 2]), false)); aggs.push(ag("min", *r.pick(&[1usize, 2]), false)); }
+    }
+    let grouped = shape == 3 || (shape != 0 && r.chance(1, 3));
+    let mut sel: Vec<String> = vec![]; let mut keys: Vec<Value> = vec![];
+    if grouped { sel.push("g".into()); keys.push(json!({"col": 5})); }
+    sel.extend(aggs.iter().map(|x| x.0.clone()));
+    let mut sql = format!("SELECT {} FROM t0", sel.join(", "));
+    if grouped { sql.push_str(" GROUP BY g"); }
+    let plan = json!({"agg": {"keys": keys, "aggs": aggs.iter().map(|x| x.1.clone()).collect::<Vec<_>>(), "q": {"scan": 0}}});
+    json!({"kind": "sql", "prop": "C07", "mode": "meta", "sql": sql, "plan": plan, "tables": cat.tables_json(), "cat": cat.meta_json(),
+           "tags": ["s:aggcut", format!("aggcut:shape{}", shape), if grouped { "aggcut:grouped" } else { "aggcut:global" }],
+           "engine_defined": false, "cfgs": ["mem1"], "recut": 1, "recuts": [1, 2, 3, 5, 6, 7, 10, 12], "kids": [5]})
+}
+
 /// run one case through the children it needs; `None` = an observation was lost (child died / too slow): the case is dropped
 fn run_case(kids: &mut Vec<Kid>, c: &Value, pre: Option<Value>) -> Option<Value> {
     match c["kind"].as_str().unwrap_or("") {
@@ -482,11 +544,12 @@ pub fn main(o: &Opts) {
         while n < o.cases && attempts < o.cases * 6 + 16 {
             attempts += 1;
             let kinds = o.get("kinds").unwrap_or("all");
-            let slot = match kinds { "scan" => 0, "tracker" => 2, "ojoin" => 3, "sql" => 5, _ => n % 10 };
+            let slot = match kinds { "scan" => 0, "tracker" => 2, "ojoin" => 3, "aggcut" => 5, "sql" => 7, _ => n % 10 };
             let mut pre_answer: Option<Value> = None;
             let c = match slot {
                 0 | 1 => gen_scan(&mut r),
                 2 => gen_tracker(&mut r),
+                5 | 6 => gen_aggcut(&mut r),
                 3 | 4 => gen_ojoin(&mut r),
                 _ => {
                     if qn % 6 == 0 { cat = gen_catalog(&mut r, &copts); }
